@@ -5,6 +5,7 @@ over the document with entity / character references decoded, `callPositions` = 
 progress callback, `imageSizeOf` / `ticImageOf` / `massImageOf` = the images as a function of the parsed model)."""
 import copy
 import locale
+import os
 import math
 import random
 import sys
@@ -41,7 +42,58 @@ ENTITY_P = 0.04
 ENTITY_KINDS = ["value", "value", "ref", "group-id"]
 UTF8_LOCALE = locale.getpreferredencoding(False).lower().replace("-", "").replace("_", "") == "utf8"
 MASSES, MASS_WIDTH = [100.0, 125.0], 16.0
+# the objects a progress callback hands back: (class name, object at the other invocations, object at invocation `abort`, weight).
+# bool / numpy.bool_ / int 0, 1: the property decides (False aborts, True does not); anything else is recorded only
+PV_TRUE = [{"t": "bool", "v": True}, {"t": "npbool", "v": True}, {"t": "int", "v": 1}]
+PV_FALSE = [{"t": "bool", "v": False}, {"t": "npbool", "v": False}, {"t": "int", "v": 0}]
+PV_TRUTHY_OTHER = [{"t": "int", "v": 2}, {"t": "int", "v": -1}] + [{"t": "other", "v": True, "py": k} for k in
+                                                                  ("str", "list", "tuple", "dict", "float", "npint", "npfloat", "obj")]
+PV_FALSY_OTHER = [{"t": "none"}] + [{"t": "other", "v": False, "py": k} for k in ("str", "list", "tuple", "dict", "float", "npint", "npfloat")]
+CBV_P = 0.6           # share of the cases whose callback hands back something else than the plain True / False
+HIST_P = 0.3          # share of the (small, in-layout) cases followed by further imports of the same path in the same process
+EDIT_KINDS = ["setSize", "setPixel", "dropSpectrum", "clearSpectra", "addSpectrum", "setTic", "setPos", "setArrays", "setMz", "setInten",
+              "setBin"]
 SECT_TAGS = ["fileDescription", "softwareList", "instrumentConfigurationList", "dataProcessingList", "cvList", "sampleList"]
+
+
+# cvParam line styles beyond gen_imzml's five (styles NSTYLES .. NSTYLES + XSTYLES - 1), all with accession before value:
+XSTYLES = 4
+
+
+def render_cv_x(it):
+    """5: unit attributes BEFORE the accession (`unitAccession="UO:…"` is written with a capital A, so the regular expression's
+    `accession="` does not occur in it); 6: nothing but accession and value; 7: explicit end tag on the same line; 8: tabs
+    instead of blanks between the attributes"""
+    a, v, n = it["acc"], it["value"], it.get("name", "p")
+    cvref = a.split(":")[0]
+    val = "" if v is None else f' value="{v}"'
+    k = it["style"] - gen_imzml.NSTYLES
+    if k == 0:
+        return f'<cvParam unitCvRef="UO" unitAccession="UO:0000017" unitName="micrometer" cvRef="{cvref}" accession="{a}" name="{n}"{val}/>'
+    if k == 1:
+        return f'<cvParam accession="{a}"{val}/>'
+    if k == 2:
+        return f'<cvParam cvRef="{cvref}" accession="{a}" name="{n}"{val}></cvParam>'
+    tv = "" if v is None else f'\tvalue="{v}"'
+    return f'<cvParam\tcvRef="{cvref}"\taccession="{a}"\t\tname="{n}"{tv}\t/>'
+
+
+def text_doc(doc):
+    """the document as the text writer sees it: cvParam items of the extra styles become verbatim lines (the driver keeps
+    seeing them as cvParam items)"""
+    def conv(items):
+        return [gen_imzml.misc(render_cv_x(it)) if it["t"] == "cv" and gen_imzml.NSTYLES <= it.get("style", 0) < gen_imzml.NSTYLES + XSTYLES
+                else it for it in items]
+
+    out = dict(doc)
+    for k in ("pre", "mid1", "mid2", "post"):
+        out[k] = [{**sct, "items": conv(sct["items"])} for sct in doc[k]]
+    out["groups"] = [{**g, "items": conv(g["items"])} for g in doc["groups"]]
+    out["settings"] = [{**st, "items": conv(st["items"])} for st in doc["settings"]]
+    out["spectra"] = [{**sp, "items": conv(sp["items"]), "scanlist": conv(sp["scanlist"]), "scans": [conv(sc) for sc in sp["scans"]],
+                       "arrays": [{**a, "items": conv(a["items"])} for a in sp["arrays"]], "tail": conv(sp["tail"])}
+                      for sp in doc["spectra"]]
+    return out
 
 
 def render_kinds(doc):
@@ -141,7 +193,7 @@ def img_tokens(a):
 class C17(Prop):
     id = "C17"
     anchored = ["src/pewlib/io/imzml.py"]
-    cases = {"quick": 1500, "thorough": 20000}
+    cases = {"quick": 1200, "thorough": 20000}
     rule = ("documents of the layout predicate `Pew.FastParse.Layout` (decided by the driver for every case): 1..7 spectra in any "
             "order incl. repeated positions and positions/offsets with many digits, TIC absent or written as integer/decimal/"
             "exponent/signed text, image size present or absent, 1..3 scanSettings, extra param groups, extra cvParam/userParam/"
@@ -159,13 +211,35 @@ class C17(Prop):
             "dyadic m/z, finite TIC texts). About 4 % of the cases are hypothesis-excluded (`entity:value`, `entity:ref`, "
             "`entity:group-id`: a character reference such as `1&#48;`, `mz&#65;rray`, `&#x31;` in a read value, a ref or a group id; "
             "`TextOk` fails): there only impl = model is demanded, fast parser against `fastParse (render d)` on the raw text, XML parser "
-            "against `xmlView (xmlDoc d)`. non-trivial = any of these layout-noise classes; distinct by canonical case hash")
-    trusted = ["xml.etree.ElementTree and `re` behave as documented; the abstract-line tokenisation of the rendered text is validated "
-               "only by this differential run (harness renders text, driver renders abstract lines from the same description; the "
-               "harness checks that the text lines at the driver's `callLine` indices are the <spectrumList>/<spectrum> lines)",
+            "against `xmlView (xmlDoc d)`. The object the progress callback hands back (features `callback-object:*`, 60 % of the cases "
+            "something else than plain True/False): bool, numpy.bool_ (what `pos < np.int64(limit)` gives), int 1/0 - decided by the "
+            "property (`PyVal.isFalse` aborts, `PyVal.isTrue` does not) - and other truthy objects (2, -1, str, list, tuple, dict, float, "
+            "NumPy scalars, object()) / falsy objects that are not False (None, '', [], (), {}, 0.0, NumPy zeros), for which every outcome "
+            "of `okOutcomes` is accepted (recorded only); at the first / a middle / the last / a random spectrum or never. Histories "
+            "(feature `history`, 30 % of the small in-layout cases + 8 targeted): after the three imports of every case (fast, XML, fast "
+            "with callback) the same path is imported 1-3 more times in the same process through either parser (`from_file`, "
+            "`fast_parse_imzml` with and without callback, aborted or not), with the case's binary or a second binary of the same layout "
+            "and other content (passed explicitly or by default), while the caller edits the objects it holds in between (image size, "
+            "pixel size, deleting / adding / clearing spectra, TIC, position, offsets and lengths, the two param groups, the binary "
+            "path; one of every kind in a quarter of the histories): every import is judged against `runOps` / the XML model of the "
+            "document with the binary given to THAT import (model fields, which binary the object reads, exact images). Every public "
+            "extraction function (extract_tic, extract_masses by m/z and by ppm width, mass_range, binned_masses) is run on both "
+            "parsers' objects of every case with data and compared bit for bit. "
+            "non-trivial = any of these layout-noise classes; distinct by canonical case hash")
+    trusted = ["xml.etree.ElementTree and `re` behave as documented (the model's `reSearch` is a hand-written matcher for the one "
+               "regular expression of the parser); the text of every generated file is classified line by line by the model's "
+               "`tokenise` (str.strip, startswith, find, the regular expression, on characters) and must agree with the abstract lines "
+               "rendered from the document description up to `Line.norm` (else internal error); the mechanism model runs on the "
+               "tokenised text",
                "int()/float() of the selected attribute text is applied by the harness to the model's output (both parsers call the same functions)",
-               "the tables realising `Bin` (text -> int()/float() value, (group id, offset, length) -> numbers decoded from the .ibd with "
-               "the group's declared type) are built by the harness with int(), float() and numpy.frombuffer",
+               "the conversions of the image functions are the model's: `pyNat` (int() of a digit text), `pyFloat` (float() of a decimal "
+               "text = the nearest binary64, assuming CPython's correctly rounded conversion) and C05's `readValues` on the bytes of the "
+               ".ibd the harness wrote (sent as hex); where one of them does not apply (`convertible` false: signs, blanks, inf, a "
+               "buffer NumPy rejects) the exact image comparison is skipped and only fast image == XML image is demanded",
+               "callback objects: the harness maps the Python object to its abstract form (kind, value / truth value); for `other` objects "
+               "the truth value is Python's bool() of the object",
+               "histories: the Python statements of the caller edits (harness) and `Edit.apply` (model) are not compared with each other; "
+               "the objects are observed when an import returns them, not afterwards",
                "hypothesis-excluded entity cases: the model keeps numbers as text, so WHERE int()/float() of a raw text such as `1&#48;` "
                "raises (scan settings: before any callback; spectrum j: after invocation j) is worked out by the harness from the model's "
                "texts in the order the code converts them"]
@@ -178,7 +252,12 @@ class C17(Prop):
                    "and CRLF line ends; the line lengths given to the model are byte lengths of the UTF-8 text. Non-ASCII text is only "
                    "generated (and only kept in a replayed case) when locale.getpreferredencoding(False) is UTF-8",
                    "the exact images are compared only when every TIC text is finite, intensities are integers and m/z values dyadic "
-                   "(sums exact in float32/float64) and positions lie inside the image; otherwise only fast image == XML image"]
+                   "(sums exact in float32/float64) and positions lie inside the image; otherwise only fast image == XML image",
+                   "'a callback returning False' is read as: the returned object is False, numpy.False_ or the int 0 (all equal to False); "
+                   "'not False' for certain: True, numpy.True_, 1.  For any other object (None, 2, 'x', 0.0, ...) the text demands neither "
+                   "abort nor continuation: the unchanged code aborts on every falsy object, a code that aborts only on objects equal to "
+                   "False is not reported (recorded only)",
+                   "which binary a returned object reads is observed through `external_binary` (os.path.samefile) and through the images"]
 
     # ------------------------------------------------------------------ generation
     def noise(self, rng, avoid, n=None, refs_ok=True):
@@ -187,7 +266,7 @@ class C17(Prop):
             r = rng.random()
             if r < 0.6:
                 pool = [a for a in NOISE_ACCS + (ALL_READ if rng.random() < 0.5 else []) if a not in avoid]
-                out.append(cv(rng.choice(pool), rng.choice(NOISE_VALUES), rng.randint(0, gen_imzml.NSTYLES - 1), rng.choice(NAMES)))
+                out.append(cv(rng.choice(pool), rng.choice(NOISE_VALUES), self.sty(rng), rng.choice(NAMES)))
             elif r < 0.85:
                 out.append(user(rng.choice(["3DPositionX", "note", "accession"]), rng.choice(["2975.78", "a b", "1e+3"])))
             elif refs_ok:
@@ -203,7 +282,7 @@ class C17(Prop):
         return items
 
     def sty(self, rng):
-        return rng.randint(0, gen_imzml.NSTYLES - 1)
+        return rng.randint(0, gen_imzml.NSTYLES + XSTYLES - 1)
 
     def num(self, rng, big=False):
         if big or rng.random() < 0.1:
@@ -213,8 +292,11 @@ class C17(Prop):
 
     def tic_text(self, rng):
         v = rng.choice([52676.0, 1.5e6, 0.0, 7.25, 1234567.875, 3e-3])
-        k = rng.randint(0, 8)
-        return [None, "%d" % int(v), "%.6f" % v, "%.6e" % v, "%E" % v, "-%.3e" % v, "+%d" % int(v), "%g" % v, "inf"][k]
+        if rng.random() < 0.04:          # texts float() turns into something that is not a finite number
+            return rng.choice(["inf", "nan", "1e400", "-Infinity"])
+        forms = [None, None, "%d" % int(v), "%.6f" % v, "%.6e" % v, "%E" % v, "-%.3e" % v, "+%d" % int(v), "%g" % v,
+                 "%d." % int(v), "%.17g" % (v / 3), "%.3e" % (v * 1e-300)]      # (no blanks inside a read value: no exporter writes them)
+        return rng.choice(forms)
 
     def generate(self, rng, tier):
         # the large-document class is decided on a fork of the case PRNG, so every other case is drawn exactly as before
@@ -225,15 +307,91 @@ class C17(Prop):
         return self.decorate(self.gen_doc(rng, tier), rng)
 
     def decorate(self, case, rng):
-        """drawn after the document, so the document classes keep their distribution: non-ASCII names (in-layout noise) and
-        the hypothesis-excluded entity classes"""
+        """drawn after the document, so the document classes keep their distribution: non-ASCII names (in-layout noise), the
+        hypothesis-excluded entity classes, the objects the callback hands back, and a history of further imports"""
         r = rng.random()
+        large = len(case["doc"]["spectra"]) >= LARGE_MIN
         if r < NON_ASCII_P:
             if UTF8_LOCALE:
                 case["non_ascii"] = rng.randint(0, 10 ** 6)
-        elif r < NON_ASCII_P + ENTITY_P and len(case["doc"]["spectra"]) < LARGE_MIN:
+        elif r < NON_ASCII_P + ENTITY_P and not large:
             case["entity"] = {"kind": rng.choice(ENTITY_KINDS), "pick": rng.randint(0, 10 ** 6), "form": rng.choice(["dec", "hex", "dec0"])}
+        more = random.Random(rng.getrandbits(64))          # (the draws above stay what they were)
+        if more.random() < 0.1:
+            case["text"] = {"bom": more.random() < 0.5, "no_final_newline": more.random() < 0.6}
+        if more.random() < 0.05 and not large:
+            case["long_lines"] = {"seed": more.randint(0, 10 ** 6), "len": more.choice([300, 5000, 9000, 70000])}
+        cbv = self.gen_cbv(more, decided_only=large)
+        if cbv is not None:
+            case["cbv"] = cbv
+        if not large and case.get("entity") is None and more.random() < (HIST_P * 1.5 if case["data"] is not None else HIST_P / 2):
+            case["hist"] = self.gen_hist(more, case)
         return case
+
+    def gen_cbv(self, rng, decided_only=False):
+        """which objects the callback hands back; None = plain True / False"""
+        r = rng.random()
+        if r >= CBV_P:
+            return None
+        r /= CBV_P
+        if r < 0.3:
+            return {"t": PV_TRUE[1], "f": PV_FALSE[1]}                 # numpy.bool_, as `pos < np.int64(limit)` gives
+        if r < 0.45:
+            return {"t": PV_TRUE[2], "f": PV_FALSE[2]}                 # 1 / 0
+        if r < 0.7 or decided_only:
+            return {"t": rng.choice(PV_TRUE), "f": rng.choice(PV_FALSE)}
+        if r < 0.85:                                                   # a truthy object that is not True
+            return {"t": rng.choice(PV_TRUTHY_OTHER), "f": rng.choice(PV_FALSE)}
+        return {"t": rng.choice(PV_TRUE), "f": rng.choice(PV_FALSY_OTHER)}      # None, "", 0.0 ... : falsy, not False
+
+    def gen_edit(self, rng, kind, nspec):
+        i = rng.randint(0, max(0, nspec - 1))
+        arrays = [[rng.choice(["mzArray", "intensities", "extra"]), str(rng.randint(0, 64)), str(rng.choice([0, 4, 8, 16]))]
+                  for _ in range(rng.randint(0, 2))]
+        grp = {"id": rng.choice(["mzArray", "intensities", "x"]), "dtype": rng.choice(BIN_TYPES), "external": rng.random() < 0.5}
+        return {"setSize": {"k": kind, "size": rng.choice([None, None, [str(rng.randint(1, 9)), str(rng.randint(1, 9))]])},
+                "setPixel": {"k": kind, "pixel": [rng.choice(["1", "2.5"]), rng.choice(["1", "1e3"])]},
+                "dropSpectrum": {"k": kind, "i": i}, "clearSpectra": {"k": kind},
+                "addSpectrum": {"k": kind, "spec": {"x": str(rng.randint(1, 4)), "y": str(rng.randint(1, 4)),
+                                                    "tic": rng.choice([None, "5.5"]), "arrays": arrays}},
+                "setTic": {"k": kind, "i": i, "tic": rng.choice([None, "123.5", "0"])},
+                "setPos": {"k": kind, "i": i, "x": str(rng.randint(1, 3)), "y": str(rng.randint(1, 3))},
+                "setArrays": {"k": kind, "i": i, "arrays": arrays},
+                "setMz": {"k": kind, "group": grp}, "setInten": {"k": kind, "group": grp},
+                "setBin": {"k": kind, "bin": rng.randint(0, 1)}}[kind]
+
+    def gen_edits(self, rng, nspec, nheld):
+        """edits of the objects the caller holds: a few, or one of every kind ("every mutable place")"""
+        r = rng.random()
+        kinds = [] if r < 0.25 else list(EDIT_KINDS) if r < 0.5 else rng.sample(EDIT_KINDS, rng.randint(1, 4))
+        if len(kinds) == len(EDIT_KINDS):
+            rng.shuffle(kinds)
+        # mostly the object returned last (index -1 = the newest), sometimes an older one
+        return [{"obj": (nheld - 1) if rng.random() < 0.7 else rng.randint(0, max(0, nheld - 1)), "edit": self.gen_edit(rng, k, nspec)}
+                for k in kinds]
+
+    def gen_hist(self, rng, case):
+        nspec = len(case["doc"]["spectra"])
+        steps = []
+        held = 3        # the three imports every case makes (the callback one may have been aborted: indices are taken modulo)
+        pre = self.gen_edits(rng, nspec, 1) if rng.random() < 0.6 else []      # edits of the first object (fast parser, binary 0)
+        for _ in range(rng.choice([1, 2, 2, 3])):
+            st = {"parser": rng.choice(["fast", "fast", "fast", "xml"]), "ibd": rng.choice([0, 1, 1]), "explicit": rng.random() < 0.5,
+                  "strpath": rng.random() < 0.3}
+            if st["parser"] == "fast":
+                r = rng.random()
+                if r < 0.25:
+                    st["cb"] = True
+                    st["abort"] = rng.choice([None, 0, nspec - 1, rng.randint(0, nspec - 1)])
+                    cbv = self.gen_cbv(rng, decided_only=True)
+                    if cbv is not None:
+                        st["cbv"] = cbv
+                else:
+                    st["api"] = "function" if r < 0.5 else "from_file"
+            held += 1
+            st["edits"] = self.gen_edits(rng, nspec, held)
+            steps.append(st)
+        return {"variant": rng.randint(0, 10 ** 6), "pre_edits": pre, "steps": steps}
 
     def gen_doc(self, rng, tier, large=None):
         """`large` = number of spectra of a large document (1000+ spectra of 1-2 peaks over a large image, light per-spectrum
@@ -267,7 +425,7 @@ class C17(Prop):
             pos = [rng.choice(cells) for _ in range(nspec)] if rng.random() < 0.2 else rng.sample(cells, min(nspec, len(cells)))
             data = []
             for _ in pos:
-                n = rng.randint(1, 5)
+                n = rng.choice([0, 1, 1, 2, 2, 3, 3, 4, 4, 5, 5, 5])        # (0: a spectrum without peaks, both array lengths 0)
                 mz = sorted({rng.randint(6400, 9600) / 64 for _ in range(n)})
                 data.append({"mz": mz, "it": [float(rng.randint(0, 500)) for _ in mz]})
             mz_acc, it_acc = gen_imzml.DTYPE_ACC[mzdt], gen_imzml.DTYPE_ACC[itdt]
@@ -317,7 +475,12 @@ class C17(Prop):
         rng.shuffle(groups)
         # ---- scan settings
         settings = []
-        for k in range(rng.choice([1, 1, 1, 2, 3])):
+        nset = rng.choice([1, 1, 1, 2, 3, 3, 6])
+        same = rng.random() < 0.3          # all <scanSettings> say the same
+        for k in range(nset):
+            if same and k > 0:
+                settings.append({"id": "scanSettings%d" % k, "items": copy.deepcopy(settings[0]["items"])})
+                continue
             req = [cv(ACC["PIXEL_X"], rng.choice(["30", "100.5", "1e2", "2.5E+1", "0.5"]), self.sty(rng), "pixel size (x)"),
                    cv(ACC["PIXEL_Y"], rng.choice(["30", "100.5", "1e-2", "7"]), self.sty(rng), "pixel size y")]
             sz = size if k == 0 else ([self.num(rng), self.num(rng)] if rng.random() < 0.5 else None)
@@ -360,13 +523,53 @@ class C17(Prop):
             yield c
         # one large document, the callback returning False never / at the first / a middle / the last / a random spectrum
         c = self.gen_doc(random.Random(1017), tier, large=2048)
-        for ab in (None, 0, 1024, 2047, random.Random(1018).randint(1, 2046)):
-            yield {**c, "abort": ab}
+        c["doc"]["trail"] = c["doc"]["trail"].replace("\r", "")          # LF here, CRLF below
+        # (the callback compares with a NumPy integer in the third, hands back 1 / 0 in the fourth)
+        for ab, cbv in ((None, None), (0, None), (1024, {"t": PV_TRUE[1], "f": PV_FALSE[1]}), (2047, {"t": PV_TRUE[2], "f": PV_FALSE[2]}),
+                        (random.Random(1018).randint(1, 2046), None)):
+            yield {**c, "abort": ab, **({} if cbv is None else {"cbv": cbv})}
         # the same document with CRLF line ends (tell() across \r|\n chunk boundaries), and with non-ASCII names
         crlf = {**c, "doc": {**c["doc"], "trail": "\r"}}
         yield {**crlf, "abort": None}
         yield {**crlf, "abort": random.Random(1019).randint(1, 2046), **({"non_ascii": 7} if UTF8_LOCALE else {})}
         yield {**c, "abort": 1500, **({"non_ascii": 11} if UTF8_LOCALE else {})}
+        # every pair of decided objects at the first / a middle / the last spectrum, and never; the undecided ones once each
+        k = 0
+        for tv in PV_TRUE:
+            for fv in PV_FALSE:
+                c2 = self.gen_doc(random.Random(500 + k), tier)
+                n = len(c2["doc"]["spectra"])
+                for ab in sorted({None, 0, n // 2, n - 1}, key=lambda v: -1 if v is None else v):
+                    yield {**c2, "abort": ab, "cbv": {"t": tv, "f": fv}}
+                k += 1
+        for j, v in enumerate(PV_TRUTHY_OTHER):
+            c2 = self.gen_doc(random.Random(600 + j), tier)
+            yield {**c2, "abort": [None, len(c2["doc"]["spectra"]) - 1][j % 2], "cbv": {"t": v, "f": PV_FALSE[j % 3]}}
+        for j, v in enumerate(PV_FALSY_OTHER):
+            c2 = self.gen_doc(random.Random(700 + j), tier)
+            yield {**c2, "abort": j % len(c2["doc"]["spectra"]), "cbv": {"t": PV_TRUE[j % 3], "f": v}}
+        # histories: the document imported again by the fast parser with the other binary; after the caller removed the image size
+        # and a spectrum from the first object; after an aborted import; through both parsers; every kind of edit
+        for j in range(8):
+            rj = random.Random(800 + j)
+            c2 = self.gen_doc(rj, tier)
+            while c2["data"] is None:
+                c2 = self.gen_doc(rj, tier)
+            c2["abort"] = [None, 0][j % 2]
+            n = len(c2["doc"]["spectra"])
+            every = [{"obj": 0, "edit": self.gen_edit(rj, kd, n)} for kd in EDIT_KINDS]
+            some = [{"obj": 0, "edit": {"k": "setSize", "size": None}}, {"obj": 0, "edit": {"k": "dropSpectrum", "i": 0}}]
+            steps = [[{"parser": "fast", "ibd": 1, "api": "from_file", "edits": []}],
+                     [{"parser": "fast", "ibd": 0, "api": "from_file", "edits": []}],
+                     [{"parser": "fast", "ibd": 1, "api": "function", "edits": every}, {"parser": "fast", "ibd": 0, "explicit": True, "edits": []}],
+                     [{"parser": "fast", "ibd": 1, "cb": True, "abort": 0, "edits": []}, {"parser": "fast", "ibd": 1, "api": "function", "edits": []},
+                      {"parser": "xml", "ibd": 1, "edits": []}],
+                     [{"parser": "xml", "ibd": 1, "edits": some}, {"parser": "fast", "ibd": 1, "edits": some}, {"parser": "xml", "ibd": 0, "edits": []}],
+                     [{"parser": "fast", "ibd": 0, "cb": True, "abort": None, "cbv": {"t": PV_TRUE[1], "f": PV_FALSE[1]}, "edits": every},
+                      {"parser": "fast", "ibd": 0, "api": "function", "edits": []}],
+                     [{"parser": "fast", "ibd": 1, "api": "from_file", "edits": some}, {"parser": "fast", "ibd": 1, "api": "from_file", "edits": []}],
+                     [{"parser": "fast", "ibd": 0, "cb": True, "abort": n - 1, "edits": []}, {"parser": "fast", "ibd": 0, "api": "from_file", "edits": []}]][j]
+            yield {**c2, "hist": {"variant": 900 + j, "pre_edits": [[], some, every, [], some, every, [], some][j], "steps": steps}}
         # small documents: non-ASCII names with LF and CRLF, each entity class in both forms
         for k, tr in enumerate(("", "\r", "\t ")):
             c2 = self.gen_doc(random.Random(300 + k), tier)
@@ -402,6 +605,18 @@ class C17(Prop):
         hit = [it for it in named if rng.random() < 0.3] or named[:1]
         for it in hit:
             it["name"] = rng.choice(NAMES_NON_ASCII)
+        return doc
+
+    def with_long_lines(self, doc, ll):
+        """very long lines (longer than the 8 KiB read-ahead chunk of the text layer): a long name attribute on a few
+        cvParam / userParam lines, one of them inside a spectrum when there is one"""
+        doc = copy.deepcopy(doc)
+        rng = random.Random(ll["seed"])
+        named = [it for items in self.item_lists(doc) for it in items if it["t"] in ("cv", "user")]
+        inspec = [it for sp in doc["spectra"] for items in [sp["items"], sp["tail"]] + sp["scans"] for it in items if it["t"] in ("cv", "user")]
+        for it in (rng.sample(named, min(2, len(named))) + (rng.sample(inspec, 1) if inspec else [])):
+            block = "".join(rng.choice("abc xyz_.-()=") for _ in range(61))
+            it["name"] = (it.get("name", "p") + " ") + (block * (ll["len"] // 61 + 1))[:ll["len"]]
         return doc
 
     def with_entity(self, doc, ent):
@@ -475,83 +690,346 @@ class C17(Prop):
                 for it in items:
                     if "name" in it:
                         it["name"] = it["name"].encode("ascii", "replace").decode("ascii")
+        if case.get("long_lines") is not None:
+            doc = self.with_long_lines(doc, case["long_lines"])
         entity = None
         if case.get("entity") is not None:
             doc, entity = self.with_entity(doc, case["entity"])
         return doc, ibd, entity
 
-    def bin_tables(self, case, doc, ibd):
-        """the conversions `Bin` of the model as tables: text -> int()/float() value, (group id, offset, length) -> the numbers
-        stored there in the group's declared type.  None when the exact image comparison does not apply (no binary data, a
-        non-finite TIC, non-integer intensities / non-dyadic m/z, a text that does not convert)"""
-        if case["data"] is None:
-            return None
-        for sp in case["data"]:
+    # ------------------------------------------------------------------ binaries
+    @staticmethod
+    def data_exact(data):
+        """the exact image comparison applies to this binary content: integer intensities and dyadic m/z of moderate size, so
+        that every float32/float64 sum NumPy forms is exact (the model sums rationals)"""
+        if data is None:
+            return False
+        for sp in data:
             if any(v != int(v) or abs(v) > 2 ** 16 for v in sp["it"]) or any(v * 64 != int(v * 64) or not 0 < v < 2 ** 12 for v in sp["mz"]) \
                     or len(sp["mz"]) > 64:
-                return None
-        ints, floats, reads = {}, {}, {}
+                return False
+        return True
+
+    @staticmethod
+    def variant_data(data, seed):
+        """a second acquisition with the same layout (same number of peaks per spectrum, hence the same offsets and lengths)
+        and other content: every m/z moved by a dyadic amount, every intensity replaced"""
+        rng = random.Random(seed)
+        out = []
+        for sp in data:
+            shift = rng.choice([0.5, 1.0, 2.25, 8.0])
+            out.append({"mz": [m + shift for m in sp["mz"]], "it": [float((int(v) * 7 + 3 + rng.randint(0, 900)) % 60000) for v in sp["it"]]})
+        return out
+
+    def bin_req(self, data, ibd):
+        """what the driver needs to realise the conversions of one external binary: its bytes.  None when the exact image
+        comparison does not apply to this content"""
+        if not self.data_exact(data):
+            return None
+        return {"ibd": ibd.hex(), "masses": [core.rat(m) for m in MASSES], "width_mz": core.rat(MASS_WIDTH)}
+
+    # ------------------------------------------------------------------ callback objects
+    @staticmethod
+    def cb_values(case):
+        """(object handed back at the invocations other than `abort`, object handed back at invocation `abort`) as
+        descriptors; plain `True` / `False` when the case does not say"""
+        cbv = case.get("cbv") or {}
+        return cbv.get("t") or {"t": "bool", "v": True}, cbv.get("f") or {"t": "bool", "v": False}
+
+    @staticmethod
+    def py_obj(desc):
+        """the Python object of a descriptor; its abstract form for the driver is (t, v)"""
+        t = desc["t"]
+        if t == "bool":
+            obj = bool(desc["v"])
+        elif t == "npbool":
+            obj = np.bool_(desc["v"])
+        elif t == "int":
+            obj = int(desc["v"])
+        elif t == "none":
+            obj = None
+        elif t == "other":
+            v, py = bool(desc["v"]), desc.get("py", "str")
+            obj = {"str": "go" if v else "", "list": [0] if v else [], "tuple": (0,) if v else (), "dict": {"a": 1} if v else {},
+                   "float": 1.5 if v else 0.0, "npint": np.int64(3 if v else 0), "npfloat": np.float64(2.5 if v else 0.0),
+                   "obj": object()}.get(py)
+            if py not in ("str", "list", "tuple", "dict", "float", "npint", "npfloat", "obj") or bool(obj) != v:
+                raise core.InternalError("bad callback object %r" % (desc,))
+        else:
+            raise core.InternalError("bad callback object %r" % (desc,))
+        return obj
+
+    @staticmethod
+    def pv_abstract(desc):
+        return {"t": desc["t"], "v": desc["v"]} if desc["t"] != "none" else {"t": "none"}
+
+    def cb_req(self, case, abort):
+        t, f = self.cb_values(case)
+        return {"default": self.pv_abstract(t), "at": abort, "value": self.pv_abstract(f)}
+
+    def make_callback(self, case, abort, calls):
+        t, f = self.cb_values(case)
+        tobj, fobj = self.py_obj(t), self.py_obj(f)
+
+        def cb(pos):
+            calls.append(int(pos))
+            return fobj if abort is not None and len(calls) - 1 == abort else tobj
+        return cb
+
+    @staticmethod
+    def allowed_callback(ok_outcomes, positions, want):
+        """the behaviours the property allows: for outcome None the full model after every position, for outcome j the
+        warning-type exception after positions 0..j"""
+        return [{"result": want if a is None else {"raises": "Warning"}, "positions": positions if a is None else positions[:a + 1]}
+                for a in ok_outcomes]
+
+    # ------------------------------------------------------------------ extraction through the public functions
+    @staticmethod
+    def extraction(m, small):
+        """every public extraction function of an ImzML object, bit-exact (NaN pixels as 'nan'); an exception as its class"""
+        def run(f):
+            try:
+                with warnings.catch_warnings():
+                    warnings.simplefilter("ignore")
+                    r = f()
+                if isinstance(r, tuple):
+                    return [img_tokens(x) for x in r]
+                return img_tokens(r)
+            except Exception as e:
+                return canon_exc(e)
+        out = {"tic": run(m.extract_tic), "masses_mz": run(lambda: m.extract_masses(MASSES, mass_width_mz=MASS_WIDTH))}
+        if small:       # (documents of a thousand spectra: the two above only, for time)
+            out["masses_ppm"] = run(lambda: m.extract_masses(np.array(MASSES + [112.5]), mass_width_ppm=4e4))
+            out["mass_range"] = run(lambda: np.array(m.mass_range(), dtype=np.float64))
+            out["binned"] = run(lambda: m.binned_masses(mass_width_mz=2.5))
+        return out
+
+    @staticmethod
+    def size_of(m):
         try:
-            dtypes = {}
-            for g in doc["groups"]:
-                types = [it["acc"] for it in g["items"] if it["t"] == "cv" and it["acc"] in BIN_TYPES]
-                if types:
-                    dtypes.setdefault(g["id"], np.dtype(DTYPE_NAME[types[0]]))
-            for st in doc["settings"]:
-                for it in st["items"]:
-                    if it["t"] == "cv" and it["acc"] in (ACC["SIZE_X"], ACC["SIZE_Y"]) and it["value"]:
-                        ints[it["value"]] = int(it["value"])
-            for sp in doc["spectra"]:
-                for sc in sp["scans"]:
-                    for it in sc:
-                        if it["t"] == "cv" and it["acc"] in (ACC["POS_X"], ACC["POS_Y"]) and it["value"]:
-                            ints[it["value"]] = int(it["value"])
-                for it in sp["items"] + sp["tail"]:
-                    if it["t"] == "cv" and it["acc"] == ACC["TIC"] and it["value"]:
-                        f = float(it["value"])
-                        if not math.isfinite(f):
-                            return None
-                        floats[it["value"]] = f
-                for a in sp["arrays"]:
-                    refs = [it["ref"] for it in a["items"] if it["t"] == "ref"]
-                    offs = [it["value"] for it in a["items"] if it["t"] == "cv" and it["acc"] == ACC["OFFSET"]]
-                    lens = [it["value"] for it in a["items"] if it["t"] == "cv" and it["acc"] == ACC["ENCODED_LENGTH"]]
-                    if len(refs) == 1 and len(offs) == 1 and len(lens) == 1 and refs[0] in dtypes and refs[0] in ("mzArray", "intensities"):
-                        o, n = int(offs[0]), int(lens[0])
-                        if 0 <= o and o + n <= len(ibd) and n % dtypes[refs[0]].itemsize == 0:
-                            vals = np.frombuffer(ibd[o:o + n], dtype=dtypes[refs[0]])
-                            if not np.isfinite(vals.astype(np.float64)).all():
-                                return None
-                            reads[(refs[0], offs[0], lens[0])] = [core.rat(float(v)) for v in vals]
-        except ValueError:
-            return None
-        if any(v < 0 for v in ints.values()):
-            return None
-        return {"ints": [{"text": t, "value": v} for t, v in sorted(ints.items())],
-                "floats": [{"text": t, "value": core.rat(v)} for t, v in sorted(floats.items())],
-                "reads": [{"id": k[0], "offset": k[1], "length": k[2], "data": v} for k, v in sorted(reads.items())],
-                "masses": [core.rat(m) for m in MASSES], "width_mz": core.rat(MASS_WIDTH)}
+            sz = m.image_size
+            return [int(sz[0]), int(sz[1])]
+        except Exception as e:
+            return canon_exc(e)
+
+    # ------------------------------------------------------------------ histories
+    def apply_edit(self, imzml, o, e, ibd_paths):
+        """the Python statement of one caller edit of a returned object"""
+        k = e["k"]
+        vals = list(o.spectra.values())
+        if k == "setSize":
+            o.scan_settings.image_size = None if e["size"] is None else (int(e["size"][0]), int(e["size"][1]))
+        elif k == "setPixel":
+            o.scan_settings.pixel_size = (float(e["pixel"][0]), float(e["pixel"][1]))
+        elif k == "dropSpectrum":
+            if e["i"] < len(o.spectra):
+                del o.spectra[list(o.spectra)[e["i"]]]
+        elif k == "clearSpectra":
+            o.spectra.clear()
+        elif k == "addSpectrum":
+            sp = e["spec"]
+            pos = (int(sp["x"]), int(sp["y"]))
+            o.spectra[pos] = imzml.Spectrum(pos, None if sp["tic"] is None else float(sp["tic"]),
+                                            {a[0]: int(a[1]) for a in sp["arrays"]}, {a[0]: int(a[2]) for a in sp["arrays"]})
+        elif k == "setTic":
+            if e["i"] < len(vals):
+                vals[e["i"]].tic = None if e["tic"] is None else float(e["tic"])
+        elif k == "setPos":
+            if e["i"] < len(vals):
+                vals[e["i"]].pos = (int(e["x"]), int(e["y"]))
+        elif k == "setArrays":
+            if e["i"] < len(vals):
+                sp = vals[e["i"]]
+                sp.offsets.clear()
+                sp.lengths.clear()
+                for a in e["arrays"]:
+                    sp.offsets[a[0]] = int(a[1])
+                    sp.lengths[a[0]] = int(a[2])
+        elif k in ("setMz", "setInten"):
+            g = o.mz_params if k == "setMz" else o.intensity_params
+            g.id = e["group"]["id"]
+            g.dtype = np.dtype(DTYPE_NAME[e["group"]["dtype"]]).type
+            g.external = bool(e["group"]["external"])
+        elif k == "setBin":
+            o.external_binary = ibd_paths[e["bin"] % len(ibd_paths)]
+        else:
+            raise core.InternalError("bad edit %r" % (e,))
+
+    def run_history(self, ctx, imzml, case, doc, path, ibd0, lens, texts, held, feats):
+        """the imports of `case["hist"]` after the three imports every case makes (fast, XML, fast with callback: `held` are the
+        objects those returned), in the same process on the same path.  Returns (impl, model, spec, ok) for the outcome"""
+        hist = case["hist"]
+        d = path.parent
+        datas = [case["data"], None if case["data"] is None else self.variant_data(case["data"], hist.get("variant", 0))]
+        ibds = [ibd0, b"\x01" * 16 + b"\x07" * 64]
+        if datas[1] is not None:
+            ibds[1], _ = gen_imzml.layout_ibd(datas[1], case["mzdt"], case["itdt"], rng=random.Random(case["pad"]))
+        ibd_paths = [path.with_suffix(".ibd"), d / "rerun.ibd"]
+        ibd_paths[1].write_bytes(ibds[1])
+        bins = [self.bin_req(datas[k], ibds[k]) for k in (0, 1)]
+        exact = all(b is not None for b in bins)
+        nspec = len(doc["spectra"])
+        # the history as the driver sees it: the three imports made so far, then the caller's edits and further imports
+        ab0 = case["abort"] if case["abort"] is not None and 0 <= case["abort"] < nspec else None
+        ops = [{"op": "import", "parser": "fast", "cb": None, "bin": 0}, {"op": "import", "parser": "xml", "bin": 0},
+               {"op": "import", "parser": "fast", "cb": self.cb_req(case, ab0), "bin": 0}]
+        objs = list(held)
+        impl_steps = []
+
+        def which_bin(o):
+            for k, pth in enumerate(ibd_paths):
+                try:
+                    if os.path.samefile(o.external_binary, pth):
+                        return k
+                except OSError:
+                    pass
+            return str(o.external_binary)
+
+        def edits(elist):
+            for e in elist:
+                if objs:
+                    k = e["obj"] % len(objs)
+                    ops.append({"op": "edit", "obj": k, "edit": e["edit"]})
+                    self.apply_edit(imzml, objs[k], e["edit"], ibd_paths)
+
+        edits(hist.get("pre_edits", []))
+        step_cb = []
+        for st in hist["steps"]:
+            b = st["ibd"] % 2
+            ab = st.get("abort")
+            if ab is not None and not 0 <= ab < nspec:
+                ab = None
+            calls = None
+            # the paths as pathlib.Path or as str (both are documented argument types)
+            P = str if st.get("strpath") else (lambda x: x)
+            try:
+                with warnings.catch_warnings():
+                    warnings.simplefilter("error")
+                    if st["parser"] == "xml":
+                        ops.append({"op": "import", "parser": "xml", "bin": b})
+                        r = imzml.ImzML.from_file(P(path), external_binary=None if (b == 0 and not st.get("explicit")) else P(ibd_paths[b]))
+                    elif st.get("cb"):
+                        calls = []
+                        ops.append({"op": "import", "parser": "fast", "cb": self.cb_req(st, ab), "bin": b})
+                        r = imzml.fast_parse_imzml(P(path), P(ibd_paths[b]), callback=self.make_callback(st, ab, calls))
+                    elif st.get("api") == "function":
+                        ops.append({"op": "import", "parser": "fast", "cb": None, "bin": b})
+                        r = imzml.fast_parse_imzml(P(path), P(ibd_paths[b]))
+                    else:
+                        ops.append({"op": "import", "parser": "fast", "cb": None, "bin": b})
+                        r = imzml.ImzML.from_file(P(path), external_binary=None if (b == 0 and not st.get("explicit")) else P(ibd_paths[b]),
+                                                  use_fast_parse=True)
+            except Exception as e:
+                r = e
+            step_cb.append(calls)
+            if isinstance(r, Exception):
+                impl_steps.append({"result": canon_exc(r)})
+            else:
+                objs.append(r)
+                one = {"result": canon_imz(r), "bin": which_bin(r)}
+                if case["data"] is not None:
+                    if exact:
+                        try:
+                            one["images"] = exact_images(r)
+                        except Exception as e:
+                            one["images"] = canon_exc(e)
+                    else:
+                        one["extraction"] = self.extraction(r, True)
+                impl_steps.append(one)
+            if calls is not None:
+                impl_steps[-1]["positions"] = calls
+            edits(st.get("edits", []))
+
+        rep = ctx.driver.call("c17.history", doc=doc, lens=lens, texts=texts, cls="any", bins=bins if exact else [None, None], ops=ops)
+        if not rep["tokens_ok"]:
+            raise core.InternalError("history: tokenised text differs from the abstract lines")
+        if not rep["layout"]:
+            raise core.InternalError("history on a document outside the layout")
+        results, specs, cbs = rep["results"][3:], rep["spec"][3:], rep["callbacks"][3:]
+        if len(results) != len(impl_steps):
+            raise core.InternalError("history: %d imports made, %d modelled" % (len(impl_steps), len(results)))
+        # exact images only where the driver's hypotheses hold for the step's model and binary (e.g. not for a TIC `inf`)
+        with_images = [exact and "ok" in sp and sp.get("images") is not None for sp in specs]
+        for got, w in zip(impl_steps, with_images):
+            if not w:
+                got.pop("images", None)
+        exact = exact and any(with_images)
+
+        def side(res, k, positions=None):
+            one = {"result": canon_model(res)}
+            if "ok" in res:
+                one["bin"] = res["bin"]
+                if with_images[k]:
+                    one["images"] = res["images"]
+                elif "extraction" in impl_steps[k]:
+                    # no exact images: all that is demanded is that imports given the same binary extract the same
+                    same = [r2 for r2 in impl_steps if r2.get("bin") == res["bin"] and "extraction" in r2]
+                    one["extraction"] = same[0]["extraction"] if same else None
+            if positions is not None:
+                one["positions"] = positions
+            return one
+
+        spec_steps, model_steps, ok = [], [], True
+        for k, (res, sp, cbi, got) in enumerate(zip(results, specs, cbs, impl_steps)):
+            if cbi is None:
+                spec_steps.append(side(sp, k))
+                model_steps.append(side(res, k))
+                continue
+            positions = rep["call_positions"]
+            allowed = []
+            for a in cbi["ok_outcomes"]:
+                allowed.append(side(sp, k, positions) if a is None else {"result": {"raises": "Warning"}, "positions": positions[:a + 1]})
+            mine = side(res, k, cbi["calls"])
+            if len(allowed) != 1:
+                feats.add("callback-value:unspecified (recorded only)")
+            pick = next((x for x in allowed if core.canon(x) == core.canon(got)), None)
+            if pick is None:
+                ok = False
+                pick = allowed[0] if allowed else {"result": "no outcome allowed"}
+            spec_steps.append(pick)
+            model_steps.append(pick if len(allowed) != 1 and core.canon(mine) != core.canon(got) and core.canon(pick) == core.canon(got) else mine)
+        return impl_steps, model_steps, spec_steps, ok, exact
 
     def evaluate(self, case, ctx):
         from pewlib.io import imzml
 
         doc, ibd, entity = self.materialise(case)
+        tdoc = text_doc(doc)
         d = ctx.tmpdir()
-        path = gen_imzml.write_pair(d, doc, ibd)
-        ends = gen_imzml.line_end_positions(doc)
+        # text-level variations no parser looks at: a byte-order mark before the first line, no line end after the last line
+        text = gen_imzml.render(tdoc)
+        ends = gen_imzml.line_end_positions(tdoc)
+        tv = case.get("text") or {}
+        if tv.get("bom") and UTF8_LOCALE:
+            text = "\ufeff" + text
+            ends = [e + 3 for e in ends]
+        if tv.get("no_final_newline"):
+            text = text[:-1]
+            ends[-1] -= 1
+        path = d / "t.imzML"
+        path.write_text(text, encoding="utf-8", newline="\n")
+        (d / "t.ibd").write_bytes(ibd)
         lens = [b - a for a, b in zip([0] + ends[:-1], ends)]
         nspec = len(doc["spectra"])
         abort = case["abort"]
         if abort is not None and not 0 <= abort < nspec:
             abort = None
+        # the text of the file, line by line, for the model's tokeniser (`tokenise`: the code's string tests on characters)
+        texts = text.split("\n")
+        if not tv.get("no_final_newline"):
+            texts = texts[:-1]
+        if len(texts) > 20000:        # (documents of a thousand spectra: the check of the callback lines below only, for time)
+            texts = None
 
-        rep = ctx.driver.call("c17.parse", doc=doc, lens=lens, cls="any", abort_call=abort,
-                              bin=None if entity is not None else self.bin_tables(case, doc, ibd))
+        rep = ctx.driver.call("c17.parse", doc=doc, lens=lens, texts=texts, cls="any", cb=self.cb_req(case, abort),
+                              bin=None if entity is not None else self.bin_req(case["data"], ibd))
+        if not rep["tokens_ok"]:
+            raise core.InternalError("the text lines, classified by the model's tokeniser, are not the abstract lines of the document")
         in_layout = bool(rep["layout"])
         if not in_layout and not (entity is not None and rep["layout_core_decoded"] and not rep["text_ok"]):
             raise core.InternalError("generated document is outside the layout predicate")
         # tokenisation contract: the lines the model names as the places of the callback are the <spectrumList>/<spectrum> lines
-        kinds = render_kinds(doc)
+        kinds = render_kinds(tdoc)
         for k, li in enumerate(rep["call_lines"]):
             if not kinds[li].startswith("<spectrumList " if k == 0 else "<spectrum "):
                 raise core.InternalError("line %d of the text is not the line the model invokes callback %d on" % (li, k))
@@ -569,17 +1047,15 @@ class C17(Prop):
         cx = canon_exc(xml) if isinstance(xml, Exception) else canon_imz(xml)
         impl = {"fast": cf, "xml": cx}
 
-        # progress callback: the positions it receives, False at invocation `abort`
+        # progress callback: the positions it receives; it hands back the object `f` at invocation `abort`, `t` otherwise
         calls = []
-
-        def cb(pos):
-            calls.append(int(pos))
-            return abort is None or len(calls) - 1 != abort
-
         try:
-            r = imzml.fast_parse_imzml(path, path.with_suffix(".ibd"), callback=cb)
+            with warnings.catch_warnings():
+                warnings.simplefilter("error")
+                r = imzml.fast_parse_imzml(path, path.with_suffix(".ibd"), callback=self.make_callback(case, abort, calls))
             cres = canon_imz(r)
         except Exception as e:
+            r = e
             cres = canon_exc(e)
         impl["callback"] = {"result": cres, "positions": calls}
 
@@ -602,33 +1078,56 @@ class C17(Prop):
             feats.add("file>8KiB" + (":crlf" if doc["trail"].endswith("\r") else ""))
 
         want = canon_model(rep["xml"])
+        cbrep = rep["callback"]
+        mo = cbrep["mech_outcome"]
         if not in_layout:
             # hypothesis-excluded (a character reference in a read text): impl against the model only.  The fast parser sees the
             # raw text (`fastParse (render d)`), ElementTree the decoded document (`xmlView (xmlDoc d)`)
             free = rep["fast_free"]
             fail = first_conversion_failure(free["ok"]) if "ok" in free else None
             mfast = canon_model(free)
-            if fail is not None and (abort is None or fail < abort):
+            if fail is not None and (mo is None or fail < mo):
                 mcb = {"result": {"raises": "ValueError"}, "positions": rep["calls_free"][:fail + 1]}
             else:
-                mcb = {"result": canon_model(rep["fast"]), "positions": rep["calls"]}
+                mcb = {"result": canon_model(cbrep["fast"]), "positions": cbrep["calls"]}
+            if len(cbrep["ok_outcomes"]) != 1:
+                # the callback handed back an object that is neither False nor True: nothing is demanded of what follows
+                feats.add("callback-value:unspecified (recorded only)")
+                mcb = impl["callback"]
             model = {"fast": mfast, "xml": want, "callback": mcb}
             return outcome(impl, model, model, hyp=False, spec_ok=True, features=feats)
 
-        # images through both objects: fast == XML always; against the model's image functions when the tables apply
-        if case["data"] is not None and not isinstance(fast, Exception) and not isinstance(xml, Exception):
-            def images(m):
-                try:
-                    return {"tic": img_tokens(m.extract_tic()), "ext": img_tokens(m.extract_masses(MASSES, mass_width_mz=MASS_WIDTH))}
-                except Exception as e:
-                    return canon_exc(e)
-            impl["images_equal"] = images(fast) == images(xml)
+        # the callback: what the property allows for the objects handed back (one behaviour when they all are True or False)
+        allowed = self.allowed_callback(cbrep["ok_outcomes"], rep["call_positions"], want)
+        mine = {"result": canon_model(cbrep["fast"]), "positions": cbrep["calls"]}
+        pick = next((x for x in allowed if core.canon(x) == core.canon(impl["callback"])), None)
+        cb_ok = pick is not None
+        if len(allowed) != 1:
+            feats.add("callback-value:unspecified (recorded only)")
+            if cb_ok and core.canon(mine) != core.canon(pick):
+                feats.add("callback-value:unspecified, impl differs from model (recorded only)")
+                mine = pick
+        if pick is None:
+            pick = allowed[0] if allowed else {"result": "no outcome allowed"}
+
+        # images through both objects: every public extraction function, fast == XML; against the model's image functions when
+        # the binary qualifies
+        both = not isinstance(fast, Exception) and not isinstance(xml, Exception)
+        impl["image_size_equal"] = (self.size_of(fast) == self.size_of(xml)) if both else True
+        small = nspec < LARGE_MIN
+        if both and case["data"] is not None:
+            ef, ex = self.extraction(fast, small), self.extraction(xml, small)
+            impl["images_equal"] = True if ef == ex else {"fast": ef, "xml": ex}
+            feats.add("extraction:both-parsers")
+        elif both and self.size_of(xml) == self.size_of(fast) and isinstance(self.size_of(xml), list) \
+                and 0 < self.size_of(xml)[0] * self.size_of(xml)[1] <= 4096:
+            ef, ex = self.extraction(fast, small), self.extraction(xml, small)
+            impl["images_equal"] = True if ef == ex else {"fast": ef, "xml": ex}
+            feats.add("extraction:both-parsers:no-data")
         else:
             impl["images_equal"] = True
-        spec = {"fast": want, "xml": want, "images_equal": True,
-                "callback": {"result": want if abort is None else {"raises": "Warning"}, "positions": rep["spec_calls"]}}
-        model = {"fast": canon_model(rep["fast_free"]), "xml": want, "images_equal": True,
-                 "callback": {"result": canon_model(rep["fast"]), "positions": rep["calls"]}}
+        spec = {"fast": want, "xml": want, "image_size_equal": True, "images_equal": True, "callback": pick}
+        model = {"fast": canon_model(rep["fast_free"]), "xml": want, "image_size_equal": True, "images_equal": True, "callback": mine}
         im = rep["images"]
         if im is not None and im["xml"] is not None:
             def exact(m):
@@ -644,7 +1143,42 @@ class C17(Prop):
             feats.add("images-exact")
             if any(v is None for row in im["xml"]["tic"] for v in row):
                 feats.add("images-exact:empty-pixel")
-        return outcome(impl, model, spec, hyp=True, features=feats)
+
+        # further imports of the same path in this process, with other binaries, callbacks, and caller edits in between
+        hist_ok = True
+        if case.get("hist") is not None:
+            held = [o for o in (fast, xml, r) if not isinstance(o, Exception)]
+            hi, hm, hs, hist_ok, hexact = self.run_history(ctx, imzml, case, doc, path, ibd, lens, texts, held, feats)
+            impl["history"], model["history"], spec["history"] = hi, hm, hs
+            self.history_features(case, feats, hexact)
+        spec_ok = cb_ok and hist_ok and core.canon({k: v for k, v in impl.items()}) == core.canon(spec)
+        return outcome(impl, model, spec, hyp=True, spec_ok=spec_ok, features=feats)
+
+    def history_features(self, case, feats, exact):
+        hist = case["hist"]
+        feats.add("history")
+        feats.add("history:%d-more-imports" % len(hist["steps"]))
+        if exact:
+            feats.add("history:images-exact")
+        seen = {("fast", 0)}       # the fast parser without a callback has read the document with binary 0
+        for st in hist["steps"]:
+            key = ("xml" if st["parser"] == "xml" else "fast-callback" if st.get("cb") else "fast")
+            feats.add("history:" + key)
+            if key == "fast":
+                if ("fast", 1 - st["ibd"] % 2) in seen:
+                    feats.add("history:fast-again-other-binary")
+                if ("fast", st["ibd"] % 2) in seen:
+                    feats.add("history:fast-again-same-binary")
+                seen.add(("fast", st["ibd"] % 2))
+            if st.get("strpath"):
+                feats.add("history:paths-as-str")
+            if st.get("cb") and st.get("abort") is not None:
+                feats.add("history:import-aborted-then-more" if st is not hist["steps"][-1] else "history:import-aborted-last")
+        kinds = {e["edit"]["k"] for e in hist.get("pre_edits", [])} | {e["edit"]["k"] for st in hist["steps"] for e in st.get("edits", [])}
+        for k in kinds:
+            feats.add("history:edit:" + k)
+        if len(kinds) >= len(EDIT_KINDS):
+            feats.add("history:edit:every-mutable-place")
 
     def features(self, case, doc, nspec):
         f = {"spectra:%s" % ("1" if nspec == 1 else "2" if nspec == 2 else "many" if nspec < LARGE_MIN else "1000+"),
@@ -686,18 +1220,59 @@ class C17(Prop):
             f.add("types:%s/%s" % (DTYPE_NAME[gt["mzArray"][0]], DTYPE_NAME[gt["intensities"][0]]))
         if has_non_ascii(doc):
             f.add("non-ascii-text")
+        tvar = case.get("text") or {}
+        if tvar.get("bom") and UTF8_LOCALE:
+            f.add("text:byte-order-mark")
+        if tvar.get("no_final_newline"):
+            f.add("text:no-final-line-end")
+        if case.get("long_lines") is not None:
+            f.add("long-lines:%d" % case["long_lines"]["len"])
+        styles = {it.get("style", 0) for items in self.item_lists(doc) for it in items if it["t"] == "cv"}
+        for st in styles:
+            if st >= gen_imzml.NSTYLES:
+                f.add("cv-style:%s" % ["unit-attributes-first", "accession-value-only", "end-tag-on-line", "tabs-between-attributes"][st - gen_imzml.NSTYLES])
+        if case["data"] is not None and any(len(sp["mz"]) == 0 for sp in case["data"]):
+            f.add("spectrum-without-peaks")
+        have = [any(it["t"] == "cv" and it["acc"] == ACC["TIC"] for it in sp["items"] + sp["tail"]) for sp in doc["spectra"]]
+        if any(a and not b for a, b in zip(have, have[1:])):
+            f.add("tic-absent-after-stored")
+        if len(doc["settings"]) > 3:
+            f.add("scanSettings:6")
+        if len(doc["settings"]) > 1:
+            f.add("scanSettings:" + ("all-equal" if all(st["items"] == doc["settings"][0]["items"] for st in doc["settings"]) else "differing"))
         ab = case["abort"]
-        f.add("callback:never-false" if ab is None else "callback:false-first" if ab == 0 else
-              "callback:false-last" if ab == nspec - 1 else "callback:false-middle")
+        if ab is not None and not 0 <= ab < nspec:
+            ab = None
+        where = "never-false" if ab is None else "false-first" if ab == 0 else "false-last" if ab == nspec - 1 else "false-middle"
+        f.add("callback:" + where)
+        # the objects the callback hands back
+        tv, fv = self.cb_values(case)
+
+        def nm(d):
+            return "int:%d" % d["v"] if d["t"] == "int" else d["t"] if d["t"] != "other" else ("truthy-" if d["v"] else "falsy-") + d.get("py", "str")
+        f.add("callback-object:" + nm(tv))
+        if ab is not None:
+            f.add("callback-object:%s@%s" % (nm(fv), where[6:]))
         return f
 
     # ------------------------------------------------------------------ shrinking
     def shrink(self, case):
         doc = case["doc"]
         sp = doc["spectra"]
-        for k in ("entity", "non_ascii"):
+        for k in ("entity", "non_ascii", "hist", "cbv", "text", "long_lines"):
             if case.get(k) is not None:
                 yield {kk: v for kk, v in case.items() if kk != k}
+        if case.get("hist") is not None:
+            h = case["hist"]
+            if h.get("pre_edits"):
+                yield {**case, "hist": {**h, "pre_edits": []}}
+                for i in range(len(h["pre_edits"])):
+                    yield {**case, "hist": {**h, "pre_edits": h["pre_edits"][:i] + h["pre_edits"][i + 1:]}}
+            for i, st in enumerate(h["steps"]):
+                if len(h["steps"]) > 1:
+                    yield {**case, "hist": {**h, "steps": h["steps"][:i] + h["steps"][i + 1:]}}
+                if st.get("edits"):
+                    yield {**case, "hist": {**h, "steps": h["steps"][:i] + [{**st, "edits": []}] + h["steps"][i + 1:]}}
         if len(sp) > 16:     # large documents: remove runs of spectra (halves, quarters, ... sixteenths) instead of single ones
             n = len(sp)
             for parts in (2, 4, 8, 16):
